@@ -1,10 +1,12 @@
 import FatVerif.Proofs.SlotTreeImg10
 import FatVerif.Proofs.SlotTreeImg14
+import FatVerif.Proofs.SlotTreeImg19
 /-!
-# Slot trees on a device image, part 15: one call through the root handle
+# Slot trees on a device image, part 20: one call through the root handle
 
 `Call` — `open_dir`, `open_file`, listing, `create_file`, `create_dir`, `remove` of a file, issued through the root
-directory handle with paths of any depth (for the mutating calls: the directory components lead back to the root).
+directory handle with paths of any depth (for the mutating calls: the directory components lead back to the root),
+and `rename` of a file inside the root (both paths single names).
 `byte_step`: on a device whose image holds the slot tree, the byte-level program of a call ends with the outcome of
 `stepSlot` and leaves a device whose image holds the slot tree after the call (`ImgTreeW` re-established, under a
 cluster map that agrees with the old one on the old tree's directories — `create_dir` extends it by the new
@@ -23,6 +25,8 @@ inductive Call where
   | createDir (path : String)
   /-- `remove` of a file -/
   | removeFile (path : String)
+  /-- `rename` of a file inside the root, both paths single names -/
+  | renameFile (src dst : String)
 
 def Call.op : Call → Spec.Op
   | .openDir p => .openDir [] p
@@ -31,6 +35,7 @@ def Call.op : Call → Spec.Op
   | .createFile p => .createFile [] p
   | .createDir p => .createDir [] p
   | .removeFile p => .remove [] p
+  | .renameFile s t => .rename [] s [] t
 
 def errOf {α} : Except Err α → Option Err
   | .ok _ => none
@@ -44,6 +49,8 @@ def ByteOut (env : Env) (fuel : Nat) (d : Dev) : Call → Option Err → Dev →
   | .createFile p, o, d' => ∃ r, run (createFile env fuel (rootDirStream d.fs) p) d = (r, d') ∧ errOf r = o
   | .createDir p, o, d' => ∃ r, run (createDir env fuel (rootDirStream d.fs) p) d = (r, d') ∧ errOf r = o
   | .removeFile p, o, d' => ∃ r, run (FatVerif.remove env fuel (rootDirStream d.fs) p) d = (r, d') ∧ errOf r = o
+  | .renameFile s t, o, d' =>
+      ∃ r, run (FatVerif.rename env fuel (rootDirStream d.fs) s (rootDirStream d.fs) t) d = (r, d') ∧ errOf r = o
 
 /-- the tail of the short record a call issued on `d` would write: time stamps from the clock; for `create_dir` the
     first cluster is the one the allocator finds in the FAT of the image -/
@@ -71,6 +78,10 @@ def CallOk (up : Char → List Char) (cl : List String → Option Nat) (d : Dev)
   | .removeFile p => p.toList.length < fuel ∧
       (∀ q, walkDirsS up t [] (pathParts p).1 = .ok q → q = []) ∧
       (∀ slots ch, t = .dir slots ch → RemoveRes d up t cl slots ch (pathParts p).2)
+  | .renameFile s t' => 0 < fuel ∧
+      (∃ sa da, Names.splitPathL s.toList = (sa, none) ∧ Names.splitPathL t'.toList = (da, none) ∧
+        ∀ slots ch, t = .dir slots ch → RenameRes d up slots ch (String.ofList sa) (String.ofList da)) ∧
+      (modelStep up d t (.renameFile s t')).out ≠ .error .hang
 
 section step
 variable {d : Dev} {up : Char → List Char} {t : Node} {cl : List String → Option Nat}
@@ -176,6 +187,23 @@ theorem byte_step (W : ImgTreeW d up t cl) (hwf : TreeWf up t) (hup : DotSafe up
       have htree : (removeS up t [] p).tree = t := removeS_err_tree _ _ _ _ e hout
       exact ⟨d', cl, ⟨_, hrun, by rw [outErr_of_err hout]; rfl⟩, VolStep.of_sameVol hs,
         by rw [htree]; exact W.of_sameVol hs, ClAgree.refl _ _ _, run_clock _ _ _ _ hrun⟩
+  | renameFile s t' =>
+    obtain ⟨hf, ⟨sa, da, h1, h2, hres⟩, hnh⟩ := hc
+    obtain ⟨f, rfl⟩ : ∃ f, fuel = f + 1 := ⟨fuel - 1, by omega⟩
+    unfold modelStep Call.op at hnh ⊢
+    simp only [stepSlot] at hnh ⊢
+    obtain ⟨o1, o2⟩ := rename_file_root_img W hwf env henv f s t' sa da h1 h2 ⟨s0, c0, ht⟩ hres hnh
+    cases hout : (renameS up 70000 t [] s [] t').out with
+    | ok rows =>
+      obtain ⟨d', hrun, hs, hW⟩ := o2 rows hout
+      exact ⟨d', cl, ⟨_, hrun, by rw [outErr_of_ok hout]; rfl⟩, hs, hW, ClAgree.refl _ _ _, run_clock _ _ _ _ hrun⟩
+    | error e =>
+      obtain ⟨d', hrun, hs⟩ := o1 e hout
+      have htree : (renameS up 70000 t [] s [] t').tree = t := by
+        rw [renameS_single up t s t' sa da h1 h2 ⟨s0, c0, ht⟩] at hout ⊢
+        exact renameInternalS_err_tree _ _ _ _ _ _ _ e hout
+      exact ⟨d', cl, ⟨_, hrun, by rw [outErr_of_err hout]; rfl⟩, VolStep.of_sameVol hs,
+        by rw [htree]; exact W.of_sameVol hs, ClAgree.refl _ _ _, run_clock _ _ _ _ hrun⟩
 
 end step
 
@@ -190,6 +218,7 @@ theorem modelStep_isDir (up : Char → List Char) (d : Dev) (t : Node) (c : Call
   | createFile p => exact createS_isDir _ _ _ _ _ _ _
   | createDir p => exact createS_isDir _ _ _ _ _ _ _
   | removeFile p => exact removeS_isDir _ _ _ _
+  | renameFile s t' => exact renameS_isDir _ _ _ _ _ _ _
 
 theorem modelStep_no_hang (up : Char → List Char) (cl : List String → Option Nat) (d : Dev) (t : Node) (fuel : Nat)
     (c : Call) (hc : CallOk up cl d t fuel c) : (modelStep up d t c).out ≠ .error .hang := by
@@ -200,6 +229,7 @@ theorem modelStep_no_hang (up : Char → List Char) (cl : List String → Option
   | createFile p => exact hc.2.2.2
   | createDir p => exact hc.2.2.2
   | removeFile p => exact removeS_no_hang _ _ _ _
+  | renameFile s t' => exact hc.2.2
 
 end SlotTreeImg
 end FatVerif
